@@ -263,8 +263,12 @@ func TestC10(t *testing.T) {
 		return "accept"
 	}
 
+	nonIdentity := 0
 	candidate := func(group, desc string, b []byte) {
 		v := judge(b)
+		if v.cls == ref.MHWellFormed && !v.isIdent {
+			nonIdentity++ // accepted as an ID by the parsers, refused by ExtractPublicKey: recorded
+		}
 		outs := clsName[v.cls]
 		text := ref.Base58Enc(b)
 		for _, p := range parsers {
@@ -480,6 +484,7 @@ func TestC10(t *testing.T) {
 	acc.Sample(map[string]any{"group": "text-subst", "example": "k0/subst[5]=30: character 5 of the base58 ID replaced by '0' (outside the alphabet), must be rejected"})
 
 	acc.Finish()
+	run.Cov["wellformed_non_identity_candidates"] = nonIdentity
 	run.Cov["alphabet"] = map[string]any{"short_string_bytes": fmt.Sprintf("%x", alpha), "text_chars": len(chars)}
 	run.Assumptions = append(run.Assumptions,
 		"reference readers in harness/ref (LEB128, multihash, base58, protobuf key message) are correct",
